@@ -22,7 +22,7 @@ NAMES = [None, "m", "r", "T", "x_0", "SYM7", "FUN3", "QTY1", "m"]
 LATEX = [None, None, "\\mu", "r_{1}"]
 SUBS = [None, "0", "max", "1"]
 DIMS = ["length", "mass", "time", "one", "velocity", "temperature"]
-ASSUME = [{}, {"positive": True}, {"real": True}, {"integer": True, "nonnegative": True}]
+ASSUME = [{}, {"positive": True}, {"real": True}, {"integer": True, "nonnegative": True}, {"commutative": False}, {"zero": False}, {"real": False}, {"negative": True}]
 UNITS = ["meter", "second", "kilogram", "kelvin"]
 INTERNAL = re.compile(r"(?<![A-Za-z0-9_])(SYM|FUN|QTY|SYS|VEC)\d+")
 
@@ -68,7 +68,13 @@ def generate(seed: int, run: int, tier: str) -> dict:
     ops = []
     for _ in range(n):
         if rng.random() < p_perturb:
-            k = rng.choice(["jump", "jump", "bulk", "clear_cache", "flag_off", "flag_on", "import"])
+            k = rng.choice(["jump", "jump", "bulk", "clear_cache", "flag_off", "flag_on", "import", "churn", "drop"])
+            if k == "churn":
+                ops.append({"op": "churn", "k": rng.choice([20, 60, 150, 300]), "name": rng.choice(name_pool), "every": rng.choice([1, 3, 10])})
+                continue
+            if k == "drop":
+                ops.append({"op": "drop", "frac": rng.choice([0.3, 0.6, 1.0]), "salt": rng.randrange(1000)})
+                continue
             if k == "jump":
                 ops.append({"op": "jump", "prefix": rng.choice(["SYM", "SYM", "FUN", "QTY", "SYS", "VEC"]), "to": _boundary(rng)})
             elif k == "bulk":
@@ -301,7 +307,7 @@ def _final_checks(model: Model) -> list[str]:
     pos_of = {id(t): i for i, t in enumerate(sym_terms)}
     n_sym = len(sym_terms)
     solve_at = {0, n_sym - 1, n_sym // 2, n_sym // 3, (2 * n_sym) // 3}
-    solve_budget = 5
+    solve_budget = 5 if all(t.is_commutative for _, t, _, _ in terms) else 0  # solve() does not handle non-commutative unknowns/coefficients
     for r, t, p, v in terms:
         e0 = E.subs(t, 0)
         if num(e0) != total - p * v:
@@ -313,7 +319,7 @@ def _final_checks(model: Model) -> list[str]:
             if solve_budget and (pos_of[id(t)] in solve_at):
                 solve_budget -= 1
                 solved += 1
-                sol = sp.solve(sp.Eq(E, 1), t, dict=True)
+                sol = sp.solve(sp.Eq(E, 1), t, dict=True, check=False)  # check=False: assumptions of the unknown may make E = 1 unsatisfiable, which is not aliasing
                 if len(sol) != 1 or sol[0][t].has(t):
                     raise Violation("independence", "solve:symbol", f"solve for {r['display']!r} returned {sol}")
                 back = num(E.subs(t, sol[0][t]))
@@ -343,6 +349,26 @@ def _final_checks(model: Model) -> list[str]:
                     raise Violation("print", printer_name, f"{printer_name} does not show display name {d!r} of a {r['kind']}: {text[:300]!r}")
             if r["kind"] == "quantity" and "QTY" not in str(r["obj"].display_name) and str(r["obj"].display_name) not in text:
                 raise Violation("print", printer_name, f"{printer_name} does not show display name {r['obj'].display_name!r} of a quantity: {text[:300]!r}")
+    # bare objects and containers of them (an IndexedSymbol may be printed without an index)
+    for printer_name, printer in (("print_expression", print_expression), ("code_str", code_str)):
+        for r in model.recs:
+            if r["kind"] not in ("symbol", "indexed", "quantity"):
+                continue
+            o = r["obj"]
+            d = str(o.display_name)
+            shapes = [("bare", o)]
+            if printer_name == "print_expression":
+                shapes += [("list", [o, 1]), ("tuple", (o, 2))]
+            for shape_name, shape in shapes:
+                try:
+                    text = printer(shape)
+                except Exception as e:  # pylint: disable=broad-except
+                    raise Violation("print", f"{printer_name}:{shape_name}", f"{printer_name} of a {shape_name} {r['kind']} raised {type(e).__name__}: {str(e)[:120]}") from None
+                bad = [m.group(0) for m in INTERNAL.finditer(text) if m.group(0) not in allowed]
+                if bad:
+                    raise Violation("print", f"{printer_name}:{shape_name}:{r['kind']}", f"{printer_name} of a {shape_name} {r['kind']} with display name {d!r} shows generated internal name {bad[0]!r}: {text[:200]!r}")
+                if r["kind"] != "quantity" and d not in text:
+                    raise Violation("print", f"{printer_name}:{shape_name}:{r['kind']}", f"{printer_name} of a {shape_name} {r['kind']} does not show its display name {d!r}: {text[:200]!r}")
     notes.append(f"terms={len(terms)} solved={solved}")
     return notes
 
@@ -379,6 +405,45 @@ def _apply(op: dict, model: Model, state: dict):  # pylint: disable=too-many-bra
         clear_cache()
         f["clear_cache"] += 1
         return "clear"
+    if k == "drop":
+        # the user lets go of some objects: the model forgets them, SymPy's cache is evicted and
+        # the garbage collector runs, so their addresses may be reused by later creations
+        import gc  # pylint: disable=import-outside-toplevel
+        import hashlib  # pylint: disable=import-outside-toplevel
+        keep = []
+        referenced = {id(r["src"]) for r in model.recs if r.get("src") is not None}
+        for i, r in enumerate(model.recs):
+            h = hashlib.sha256(f"{op.get('salt', 0)}/{i}".encode()).digest()[0] / 256.0
+            if h < op.get("frac", 0.5) and r["kind"] in ("symbol", "indexed", "function") and id(r) not in referenced:
+                continue
+            keep.append(r)
+        f["drop"] = f.get("drop", 0) + (len(model.recs) - len(keep))
+        model.recs[:] = keep
+        clear_cache()
+        gc.collect()
+        return "drop"
+    if k == "churn":
+        # many short-lived sources and clones: create, clone, check, release (address reuse)
+        import gc  # pylint: disable=import-outside-toplevel
+        for i in range(int(op["k"])):
+            kw = dict(ASSUME[i % len(ASSUME)])
+            src_ = sx.Symbol(op.get("name") or "c", units.length, **kw)
+            exp_a = dict(src_.assumptions0)
+            c1 = sx.clone_as_symbol(src_, subscript="1")
+            c2 = clone_as_indexed(src_)
+            for c_, helper in ((c1, "clone_as_symbol"), (c2, "clone_as_indexed")):
+                if dict(c_.assumptions0) != exp_a:
+                    raise Violation("clone", f"{helper}:assumptions", f"{helper} of a short-lived source created with {kw} (round {i}) has assumptions {sorted(dict(c_.assumptions0).items())}, source has {sorted(exp_a.items())}")
+                if c_.dimension != src_.dimension:
+                    raise Violation("clone", f"{helper}:dimension", f"{helper} of a short-lived source (round {i}) has dimension {c_.dimension}")
+            if c1 == src_ or str(c1.name) == str(src_.name):
+                raise Violation("alias", "clone-equals-source", f"clone equals its source (round {i})")
+            del src_, c1, c2, c_
+            if i % int(op.get("every", 1)) == 0:
+                clear_cache()
+                gc.collect()
+        f["churn"] = f.get("churn", 0) + 1
+        return "churn"
     if k == "flag_off":
         global_parameters.evaluate = False
         f["flag_off"] += 1
@@ -477,7 +542,7 @@ def child_run(job: dict) -> dict:
     from sympy.core.parameters import global_parameters  # pylint: disable=import-outside-toplevel
     from symplyphysics.core.symbols import id_generator  # pylint: disable=import-outside-toplevel
     model = Model()
-    state = {"faults": {"jump": 0, "bulk": 0, "clear_cache": 0, "flag_off": 0, "import": 0}}
+    state = {"faults": {"jump": 0, "bulk": 0, "clear_cache": 0, "flag_off": 0, "import": 0, "drop": 0, "churn": 0}}
     events = []
     violation = None
     soft = []
